@@ -354,9 +354,10 @@ inline void run(Ctx& C) {
             // a number directly followed by a non-whitespace byte: the statement leaves the answer open
             if (lastIsBareNumber && !jsuf[sf].empty()) continue;
             bool built = false;
-            const uint64_t h0 = uint64_t(di[0]) * 131 + uint64_t(si[0]) * 7;
             for (int r = 0; r < kNumReaders; r++) {
-              if (!C.takeByHash(h0 + uint64_t(r) * 1009)) continue;
+              // cases that can share a consumed prefix (same reader, first separator, first document) go to the same shard
+              const int ident[4] = {0, r, si[0], di[0]};
+              if (!C.takeByHash(fnv1a(ident, sizeof ident) >> 7)) continue;
               if (!built) {
                 built = true;
                 P = Plan();
@@ -401,7 +402,8 @@ inline void run(Ctx& C) {
           Plan P;
           bool built = false;
           for (int r = 0; r < kNumReaders; r++) {
-            if (!C.takeByHash(uint64_t(di[0]) * 131 + uint64_t(r) * 1009 + 5)) continue;
+            const int ident[4] = {1, r, 0, di[0]};
+            if (!C.takeByHash(fnv1a(ident, sizeof ident) >> 7)) continue;
             if (!built) {
               built = true;
               P.msgpack = true;
